@@ -240,7 +240,7 @@ func ruleS2(c *Ctx) *RuleResult {
 			}
 		})
 		if tagI == nil || uriI == nil {
-			r.fail(key, c.Pos(fn.Pos()), FuncName(fn), "the URI line is emitted after its "+spec.tag+" chunk", "tag literal or URI concatenation not found")
+			r.undecided("%s: %s — %s (the construct this rule is anchored on was not found: no verdict)", key, "the URI line is emitted after its "+spec.tag+" chunk", "tag literal or URI concatenation not found")
 			continue
 		}
 		okOrder := tagI == uriI || instrDominates(tagI, uriI)
